@@ -1843,6 +1843,34 @@ def _generate(unit_path, canaries=True, extra=()):
             if len(cands) != 1:
                 raise LostAnchor(f'{sf.rel}: expected exactly one fn {target} for lift, found {len(cands)}')
             fi0 = FnInfo(sf, cands[0])
+            if lift_kind == 'afterloop':
+                # the statements that follow loop K (function-wide ordinal) up to the end of the block containing it
+                if k >= len(fi0.loops):
+                    raise LostAnchor(f'{sf.rel}: fn {target} has no loop {k}')
+                q0 = fi0.loops[k]['close'] + 1
+                q = q0
+                while True:
+                    t = sf.toks[q]
+                    if t.kind == 'punct' and t.text in ('(', '[', '{'):
+                        q = match_close(sf.toks, q)
+                    elif t.kind == 'punct' and t.text in (')', ']', '}'):
+                        break
+                    q += 1
+                body = '{ ' + sf.src[sf.toks[q0].start:sf.toks[q].start] + '}'
+                lb = line_of(sf.src, sf.toks[q0].start) - 1
+                text = header_txt + ' ' + body
+                sf2 = SrcFile(sf.rel, text=text, line_base=lb)
+                try:
+                    sf2.toks = lex(sf2.src)
+                    sf2.items = parse_items(sf2.toks, 0, len(sf2.toks))
+                except (LexError, IndexError, AssertionError) as e:
+                    raise LostAnchor(f'lift: cannot parse lifted block: {e}')
+                item = sf2.items[0]
+                gen.rewrites.append((f'R-LIFT afterloop {k} of {target} as {name}', sf.rel, lb + 1))
+                emit_fn(gen, sf2, item, spec, canary=False, qual='closure@' + target + '::')
+                if canaries and spec.canary:
+                    emit_fn(gen, sf2, item, spec, canary=True, qual='closure@' + target + '::')
+                continue
             if lift_kind == 'tail':
                 # the top-level statements of the function from the one that ends with the K-th top-level `;` to the end
                 it0 = cands[0]
